@@ -47,13 +47,13 @@ class SnapshotStable(Monitor):
         env.held_form = (obj, json.dumps(obj, sort_keys=True, default=str), " ".join(env.log[-2:]))
 
 
-def crash_twin(ch, ctx, did, steps, crash="bits", crash_max=6, control=None, twin=False, rerun=None):
+def crash_twin(ch, ctx, did, steps, crash="bits", crash_max=6, control=None, twin=False, rerun=None, crash_init=False):
     """N is never persisted; P is persisted and restored at the chosen boundaries. Both are
     driven by the same decisions. Offers at every step and the final persisted form, output,
     errors and status must be identical."""
     wf = defs.get(did)
     n = Env(ch, wf, "C05", monitors=[SnapshotStable()], policy=Policy(steps=steps, tokens=True, bits=True, control=control, rerun=rerun, rerun_steps=3, rerun_ok=True, rerun_order=False))
-    p = Env(ch, wf, "C05", monitors=[Fixpoint()], policy=Policy(steps=steps, tokens=True, bits=True, control=control, crash=crash, crash_max=crash_max, rerun=rerun, rerun_steps=3, rerun_ok=True, rerun_order=False))
+    p = Env(ch, wf, "C05", monitors=[Fixpoint()], policy=Policy(steps=steps, tokens=True, bits=True, control=control, crash=crash, crash_max=crash_max, crash_init=crash_init, rerun=rerun, rerun_steps=3, rerun_ok=True, rerun_order=False))
     p.counters = ctx["counters"]
     n.counters = ctx["counters"]
     try:
@@ -120,6 +120,12 @@ def obligations(tier):
         o = ob("C05", "e2c.rerun." + did, "vt.harness.C05:crash_twin", {"did": did, "steps": steps, "crash": "one", "rerun": "default"}, timeout=1800)
         o["antecedents"] = ante
         obs.extend(position_slices(o, "crash_at", steps + 3))
+    # persisted right after construction, before anything touched the lazily built state; with input that
+    # renders (D01) and with vars that fail to render (D31: the conductor fails itself on first use)
+    for did in ("D01", "D31"):
+        o = ob("C05", "e2c.init." + did, "vt.harness.C05:crash_twin", {"did": did, "steps": 3, "crash": "bits", "crash_max": 2, "crash_init": True}, timeout=600)
+        o["antecedents"] = ante
+        obs.append(o)
     o = ob("C05", "e2c.ctl.D11", "vt.harness.C05:crash_twin", {"did": "D11", "steps": 5, "crash": "one", "control": "either"}, timeout=1800)
     obs.extend(position_slices(o, "crash_at", 6))
     obs.append(ob("C05", "twin.D04", "vt.harness.C05:crash_twin", {"did": "D04", "steps": 4, "twin": True}, timeout=120))
